@@ -145,3 +145,26 @@ contract(F, "TableMethod.pumping_subuniverse", props=["C11"], aliases=FAL,
                  "forall(lambda j: implies(0 <= j and j < len(it.children), it.children[j] < len(self._function._value) and "
                  "is_none(self._function._value[it.children[j]])))"],
          modifies=[], notes="only stored rule keys all of whose classes are pumping (restriction to the pumping sub-universe)")
+
+# ---------------------------------------------------------------- shift table (C03)
+# The shift of child i in a rule = number of terms the child can still give the parent:
+#     value(child_i) + declared_shift_i - value(parent)       (infinite child: None; infinite parent: all None)
+_TF = "self._function"
+_TFV = "ite({k} < len(self._function._value), self._function._value[{k}], 0)"
+contract(F, "TableMethod._compute_shift", props=["C03"], aliases=FAL,
+         params={"self": Obj("TableMethod"), "rule_key": Tup(Int, Seq(Int)), "shifts_for_zero": Seq(Int)},
+         returns=List(Opt(Int)),
+         requires=["rule_key[0] >= 0", "forall(lambda j: implies(0 <= j and j < len(rule_key[1]), rule_key[1][j] >= 0))",
+                   "len(rule_key[1]) == len(shifts_for_zero)"],
+         ensures=["fresh(result)", "len(result) == len(shifts_for_zero)",
+                  "implies(is_none(old(" + _TFV.format(k="rule_key[0]") + ")), "
+                  "forall(lambda i: implies(0 <= i and i < len(result), is_none(result[i]))))",
+                  "implies(not is_none(old(" + _TFV.format(k="rule_key[0]") + ")), "
+                  "forall(lambda i: implies(0 <= i and i < len(result), "
+                  "result[i] == ite(is_none(old(" + _TFV.format(k="rule_key[1][i]") + ")), None, "
+                  "val(old(" + _TFV.format(k="rule_key[1][i]") + ")) + shifts_for_zero[i] - "
+                  "val(old(" + _TFV.format(k="rule_key[0]") + "))))))",
+                  # reading the function never changes a value
+                  "forall(lambda k: implies(0 <= k, " + _TFV.format(k="k") + " == old(" + _TFV.format(k="k") + ")))"],
+         modifies=["*self._function._value", "*self._function._preimage_count._list", "all:List(Opt(Int))"],
+         notes="initial shifts of a newly inserted rule from the current values")
